@@ -108,7 +108,7 @@ Theorem C41_extensibility_base_name_preserved :
     known_multi_annot defs = false -> known_split defs = false ->
     struct_headers_of (shape_of_items 0 items) = struct_headers_of (shape_of_defs [] defs)
     /\ enums_of (shape_of_items 0 items) = enums_of (shape_of_defs [] defs).
-Proof. intros. split; [apply struct_headers_preserved | apply enums_preserved]; assumption. Qed.
+Proof. exact headers_preserved. Qed.
 
 (* union discriminator and case member kinds, aliases, constants: whenever no bound and no
    multi-dimensional array is declared *)
@@ -118,10 +118,7 @@ Theorem C41_unions_aliases_consts_preserved :
     unions_of (shape_of_items 0 items) = unions_of (shape_of_defs [] defs)
     /\ aliases_of (shape_of_items 0 items) = aliases_of (shape_of_defs [] defs)
     /\ consts_of (shape_of_items 0 items) = consts_of (shape_of_defs [] defs).
-Proof.
-  intros defs items Hs Hc K1 K3. split; [apply unions_preserved; assumption|].
-  apply aliases_consts_preserved; assumption.
-Qed.
+Proof. exact unions_aliases_consts_preserved. Qed.
 
 (* ---- the four classes are genuine: in each there is a supported specification, in no other
    class, on which the clause named is violated (recorded findings C41-bounds-dropped,
